@@ -215,14 +215,15 @@ def to_obj_term(v):
         return v.t
     if isinstance(v, VNone):
         return z3.IntVal(0)
+    # boxed scalars are odd numbers: never the id 0 of None
     if isinstance(v, VInt):
-        return _boxI(v.t)
+        return 2 * _boxI(v.t) + 1
     if isinstance(v, VStr):
-        return _boxS(v.t)
+        return 2 * _boxS(v.t) + 1
     if isinstance(v, VBool):
-        return _boxB(v.t)
+        return 2 * _boxB(v.t) + 1
     if isinstance(v, VReal):
-        return _boxR(v.t)
+        return 2 * _boxR(v.t) + 1
     if isinstance(v, VFn):
         if v.t is not None:
             return v.t
@@ -237,7 +238,7 @@ def to_obj_term(v):
         # tuples are boxed structurally through an uninterpreted pairing
         acc = z3.IntVal(const_id("tuple:nil"))
         for it in reversed(v.items):
-            acc = _pair(to_obj_term(it), acc)
+            acc = 2 * _pair(to_obj_term(it), acc) + 1
         return acc
     if isinstance(v, VOpt):
         return z3.If(v.isnone, z3.IntVal(0), to_obj_term(v.inner))
